@@ -194,8 +194,30 @@ pub fn generate(seed: u64, quick: bool) -> BlockScenario {
             pool.swap_remove(i);
         }
     }
-    let target = k + r.range(0, 4) as u32; // distinct symbols to reach
+    // adversarial redundancy: both members of a few "twin" pairs (identical LT rows) arrive early
+    let twins: Vec<(u32, u32)> = if r.chance(1, 4) {
+        let n = r.urange(1, 4);
+        crate::rank::twin_esis(k, n, &mut |m| r.usize_below(m))
+    } else {
+        vec![]
+    };
+    let target = k + r.range(0, 4) as u32 + twins.len() as u32; // distinct symbols to reach
+    if !twins.is_empty() {
+        // make room: with twins the interesting states are those where the count is >= K
+        while pool.len() as u32 + 2 * twins.len() as u32 > target && !pool.is_empty() {
+            let i = r.usize_below(pool.len());
+            pool.swap_remove(i);
+        }
+    }
     let mut have: BTreeSet<u32> = pool.iter().copied().collect();
+    let mut twin_list: Vec<u32> = vec![];
+    for (a, b) in &twins {
+        for e in [*a, *b] {
+            if have.insert(e) {
+                twin_list.push(e);
+            }
+        }
+    }
     let room = (1u32 << 24) - k;
     while (have.len() as u32) < target {
         let e = match r.below(10) {
@@ -209,9 +231,18 @@ pub fn generate(seed: u64, quick: bool) -> BlockScenario {
         }
     }
     r.shuffle(&mut pool);
+    if !twin_list.is_empty() {
+        // twins arrive among the first symbols (they are what the decoder tries first)
+        let mut head = twin_list.clone();
+        let take = pool.len().min(r.usize_below(4));
+        head.extend(pool.drain(..take));
+        r.shuffle(&mut head);
+        head.extend(pool.drain(..));
+        pool = head;
+    }
     // batch structure: an initial batch (no attempt inside it), then single arrivals
     let over_hdpc = (pr.h + 1).min(4) + pr.h; // enough extra symbols to make the GF(2)-only attempt eligible
-    let first = match r.below(8) {
+    let first = match if twin_list.is_empty() { r.below(8) } else { r.below(5) } {
         0 | 1 => 0,
         2 => k.saturating_sub(2),
         3 => k.saturating_sub(1),
